@@ -101,9 +101,24 @@ const c14Reps = 24
 
 var manyKeys = []string{"alpha", "beta", "gamma", "delta", "eps", "zeta", "eta", "theta", "iota", "kappa", "lambda", "mu"}
 
+// keys that differ only in case, in digits or in a prefix: an ordering that
+// treats some of them as equal leaves their order to the map
+var trickyKeys = []string{"id", "ID", "Id", "iD", "name", "Name", "NAME", "a", "A", "a1", "a10", "a2", "ab", "Ab", "_x", "x_", "z", "Z"}
+
+func keySet(rt *rapid.T, n int) []string {
+	if rapid.IntRange(0, 2).Draw(rt, "trickyKeys") == 0 {
+		if n > len(trickyKeys) {
+			n = len(trickyKeys)
+		}
+		return rapid.SliceOfNDistinct(rapid.SampledFrom(trickyKeys), n, n, rapid.ID[string]).Draw(rt, "keys")
+	}
+	return manyKeys[:n]
+}
+
 func genObjExpr(rt *rapid.T, depth int) *tw.Expr {
 	n := rapid.IntRange(2, 12).Draw(rt, "nKeys")
-	keys := manyKeys[:n]
+	keys := keySet(rt, n)
+	n = len(keys)
 	vals := make([]*tw.Expr, n)
 	for i := range vals {
 		switch rapid.IntRange(0, 5).Draw(rt, "valForm") {
@@ -140,6 +155,8 @@ func genObjData(rt *rapid.T, depth int) *spec.Value {
 		}
 		return spec.Struct(names[:n], vals)
 	}
+	keys := keySet(rt, n)
+	n = len(keys)
 	vals := make([]*spec.Value, n)
 	for i := range vals {
 		vals[i] = spec.Any(spec.IntOf(spec.TInt, int64(i)))
@@ -147,7 +164,7 @@ func genObjData(rt *rapid.T, depth int) *spec.Value {
 			vals[i] = spec.Any(genObjData(rt, depth-1))
 		}
 	}
-	return spec.Map(spec.T(spec.TAny), manyKeys[:n], vals)
+	return spec.Map(spec.T(spec.TAny), keys, vals)
 }
 
 func TestC14_Objects(t *testing.T) {
